@@ -259,6 +259,13 @@ func BuildMux(root string, pkgs []string) (string, error) {
 	}
 	sb.WriteString(`}
 
+func muxTimeout() time.Duration {
+	if v, err := strconv.Atoi(os.Getenv("VERIF_MUX_TIMEOUT")); err == nil && v > 0 {
+		return time.Duration(v) * time.Second
+	}
+	return 5 * time.Second
+}
+
 func main() {
 	sc := bufio.NewScanner(os.Stdin)
 	sc.Buffer(make([]byte, 1<<20), 1<<26)
@@ -282,7 +289,7 @@ func main() {
 		select {
 		case r := <-done:
 			fmt.Fprintln(out, r)
-		case <-time.After(5 * time.Second):
+		case <-time.After(muxTimeout()):
 			fmt.Fprintln(out, "timeout")
 			out.Flush()
 			os.Exit(3)
@@ -305,12 +312,34 @@ func main() {
 	return bin, nil
 }
 
-// RunMux feeds requests to the multiplexer, restarting it after a hang.
+// RunMux feeds requests to the multiplexer, restarting it after a hang. A request answered
+// `timeout` or `crash` is run again alone with a 90 s limit, so that a loaded machine is not
+// mistaken for a parser that does not terminate.
 func RunMux(bin string, reqs []string) []string {
+	res := runMuxOnce(bin, reqs, 0)
+	retried := 0
+	for i, r := range res {
+		if (r == "timeout" || r == "crash") && retried < 4 {
+			retried++
+			again := runMuxOnce(bin, reqs[i:i+1], 90)
+			if len(again) == 1 {
+				res[i] = again[0]
+			}
+		}
+	}
+	return res
+}
+
+func runMuxOnce(bin string, reqs []string, limit int) []string {
 	res := make([]string, 0, len(reqs))
 	for len(res) < len(reqs) {
 		rest := reqs[len(res):]
 		cmd := exec.Command(bin)
+		wait := time.Duration(30+len(rest)/50) * time.Second
+		if limit > 0 {
+			cmd.Env = append(os.Environ(), fmt.Sprintf("VERIF_MUX_TIMEOUT=%d", limit))
+			wait = time.Duration(2*limit) * time.Second
+		}
 		cmd.Stdin = strings.NewReader(strings.Join(rest, "\n") + "\n")
 		var out bytes.Buffer
 		cmd.Stdout = &out
@@ -320,7 +349,7 @@ func RunMux(bin string, reqs []string) []string {
 		go func() { done <- cmd.Wait() }()
 		select {
 		case <-done:
-		case <-time.After(time.Duration(30+len(rest)/50) * time.Second):
+		case <-time.After(wait):
 			cmd.Process.Kill()
 			<-done
 		}
